@@ -244,7 +244,9 @@ Theorem wrapper_acceptability_table :
   (forall d, redis_acceptable d = true <->
      d = DNil \/ d = DRedisNil \/ d = DWrappedRedisNil \/ d = DCtxCanceled \/ d = DWrappedCanceled) /\
   (forall d, sql_acceptable d = true <->
-     d = DNil \/ d = DSqlNoRows \/ d = DSqlTxDone \/ d = DCtxCanceled \/ d = DWrappedCanceled \/ d = DSqlAcceptable) /\
+     d = DNil \/ d = DSqlNoRows \/ d = DSqlTxDone \/ d = DCtxCanceled \/ d = DWrappedCanceled \/ d = DSqlAcceptable \/
+     exists i n, d = DSqlCustom i n /\ 1 <= i <= n) /\
+  (forall d, sqlq_acceptable d = true <-> d = DSqlScanFail \/ sql_acceptable d = true) /\
   (forall h, rest_accepts h = true <-> h_code h < 500) /\ rest_accepts (HPanic None) = true.
 Proof. exact acceptability_tables. Qed.
 Print Assumptions wrapper_acceptability_table.
